@@ -359,6 +359,10 @@ func genT4Edit(r *core.RNG, length int) textEdit {
 	case 0:
 		return textEdit{Op: "set-length", N: []int{0, 1, length - 1, length + 1, length / 2, length * 2, length + 60, length - 60, 10, 60}[r.Intn(10)]}
 	case 1:
+		if r.Chance(1, 4) {
+			// numbers at the edge of what an int can hold
+			return textEdit{Op: "set-length", N: []int{9223372036854775807, 9223372036854775806, 4611686018427387904, 1 << 62, 1 << 32, 1<<31 - 1, 3074457345618258603, 999999999999999999}[r.Intn(8)]}
+		}
 		return textEdit{Op: "set-length", N: r.Range(0, length+200)}
 	case 2:
 		return textEdit{Op: "del-origin-line", Line: r.Intn(1000)}
@@ -550,7 +554,7 @@ func (x *c07Run) runStream(sc *c07Scenario, m *material) {
 		}
 	}
 	// an error returned by the reader must not be turned into a clean end of input
-	if cut && fkind == "eio" && r.Reader.ErrorDelivered && r.Err == nil {
+	if cut && simpipe.IsErrorKind(fkind) && r.Reader.ErrorDelivered && r.Err == nil {
 		x.violate(sc, "read-error-swallowed", format, fmt.Sprintf("the reader failed with an I/O error at offset %d (in %s); the scan returned %d records and Err()==nil", c, field, len(r.Seqs)))
 	}
 	// T6: the same stream scanned again in the same process (no process boundary) gives the same outcome
@@ -963,7 +967,7 @@ func (C07) RunSeed(tier string, seed uint64, idx int) *core.Result {
 			s := *sc
 			s.Pipe.CutAt = c
 			if r.Chance(1, 4) {
-				s.Pipe.CutKind = "eio"
+				s.Pipe.CutKind = []string{"eio", "eio", "ueof", "closed"}[r.Intn(4)]
 			}
 			s.Pipe.WithData = r.Chance(1, 4)
 			if r.Chance(1, 12) {
@@ -994,7 +998,7 @@ func (C07) RunSeed(tier string, seed uint64, idx int) *core.Result {
 			if r.Chance(1, 4) {
 				sc.Pipe.CutAt = r.Intn(nb + 1)
 				if r.Chance(1, 3) {
-					sc.Pipe.CutKind = "eio"
+					sc.Pipe.CutKind = []string{"eio", "ueof", "closed"}[r.Intn(3)]
 				}
 			}
 			sc.CheckAlt, sc.AltChunks = r.Chance(1, 3), genChunks(r)
@@ -1184,10 +1188,15 @@ func (C07) Candidates(raw json.RawMessage) []json.RawMessage {
 		c.Pipe.WithData = false
 		emit(c)
 	}
-	if sc.Pipe.CutKind == "eio" {
+	if sc.Pipe.CutKind != "" && sc.Pipe.CutKind != "eof" {
 		c := cl()
 		c.Pipe.CutKind = ""
 		emit(c)
+		if sc.Pipe.CutKind != "eio" {
+			c := cl()
+			c.Pipe.CutKind = "eio"
+			emit(c)
+		}
 	}
 	if sc.CheckAlt {
 		c := cl()
